@@ -84,7 +84,8 @@ Record req := mkReq {
   r_ctx : bool;                    (* the caller's context is done *)
   r_wd : bool;                     (* workerCtx cancelled (worker left, or popped as no-cache) *)
   r_fin : bool;                    (* the worker / commit goroutine has finished *)
-  r_direct : bool; r_d4 : Z; r_d6 : Z   (* direct path: the entries chosen under the lock *)
+  r_direct : bool; r_d4 : Z; r_d6 : Z;  (* direct path: the entries chosen under the lock *)
+  r_k4 : bool; r_k6 : bool              (* direct path: the pod held the entry before this request *)
 }.
 Definition rtab := list (Z * req).
 Fixpoint rfind (r : Z) (t : rtab) : option req :=
@@ -169,7 +170,7 @@ Definition alloc_kind (s : slot) (pod : Z) (nc : bool) (pin : Z) (erdma : bool) 
          end
   end.
 
-Definition new_req (pod : Z) (nc direct : bool) (d4 d6 : Z) := mkReq pod nc false false false direct d4 d6.
+Definition new_req (pod : Z) (nc direct : bool) (d4 d6 : Z) (k4 k6 : bool) := mkReq pod nc false false false direct d4 d6 k4 k6.
 
 (* ---- worker exit: switchIPv4/6 + request.cancel() (local.go:562-571, 1174-1217) -------- *)
 Definition switch_f (s : slot) (f : fid) (r : Z) : slot :=
@@ -183,9 +184,9 @@ Definition switch_f (s : slot) (f : fid) (r : Z) : slot :=
   else s.
 Definition mark_req (s : slot) (r : Z) (g : req -> req) : slot :=
   match rfind r (s_reqs s) with Some q => with_reqs s (rput r (g q) (s_reqs s)) | None => s end.
-Definition set_wd (q : req) := mkReq (r_pod q) (r_nc q) (r_ctx q) true (r_fin q) (r_direct q) (r_d4 q) (r_d6 q).
-Definition set_fin (q : req) := mkReq (r_pod q) (r_nc q) (r_ctx q) (r_wd q) true (r_direct q) (r_d4 q) (r_d6 q).
-Definition set_ctx (q : req) := mkReq (r_pod q) (r_nc q) true (r_wd q) (r_fin q) (r_direct q) (r_d4 q) (r_d6 q).
+Definition set_wd (q : req) := mkReq (r_pod q) (r_nc q) (r_ctx q) true (r_fin q) (r_direct q) (r_d4 q) (r_d6 q) (r_k4 q) (r_k6 q).
+Definition set_fin (q : req) := mkReq (r_pod q) (r_nc q) (r_ctx q) (r_wd q) true (r_direct q) (r_d4 q) (r_d6 q) (r_k4 q) (r_k6 q).
+Definition set_ctx (q : req) := mkReq (r_pod q) (r_nc q) true (r_wd q) (r_fin q) (r_direct q) (r_d4 q) (r_d6 q) (r_k4 q) (r_k6 q).
 Definition worker_exit (s : slot) (r : Z) : slot :=
   mark_req (switch_f (switch_f s F4 r) F6 r) r (fun q => set_fin (set_wd q)).
 
@@ -201,16 +202,21 @@ Definition pop_f (s : slot) (f : fid) (k : Z) : slot :=
   let d := f_dang x ++ a in
   with_reqs (fset s f (with_q x b d)) (cancel_nc (s_reqs s) d).
 
-(* commit (local.go:1049-1086): owner := pod (again), then deliver or roll back *)
-Definition commit (s : slot) (pod c4 c6 : Z) (deliver : bool) : slot :=
+(* heldBy: the entry is already allocated to the pod *)
+Definition held_by (s : iset) (a pod : Z) : bool :=
+  negb (a =? 0) && negb (pod =? 0) && match find a s with Some e => e_owner e =? pod | None => false end.
+
+(* commitKeep: owner := pod (again), then deliver, or roll back — except for an entry the pod held
+   before this request (k4, k6) *)
+Definition commit (s : slot) (pod c4 c6 : Z) (deliver k4 k6 : bool) : slot :=
   let s1 := if c4 =? 0 then s else map_set s F4 (set_owner c4 pod) in
   let s2 := if c6 =? 0 then s1 else map_set s1 F6 (set_owner c6 pod) in
   if deliver then
     with_held s2 ((if (c4 =? 0) || (pod =? 0) then [] else [(pod, F4, c4)]) ++
                   (if (c6 =? 0) || (pod =? 0) then [] else [(pod, F6, c6)]) ++ s_held s2)
   else
-    let s3 := if c4 =? 0 then s2 else map_set s2 F4 (release c4 pod) in
-    if c6 =? 0 then s3 else map_set s3 F6 (release c6 pod).
+    let s3 := if (c4 =? 0) || k4 then s2 else map_set s2 F4 (release c4 pod) in
+    if (c6 =? 0) || k6 then s3 else map_set s3 F6 (release c6 pod).
 
 (* errorHandleLocked: back-off deadline by error class (1: ENI-per-instance limit, 60 s;
    2: vSwitch exhausted / private-IP quota, 600 s); the model's clock counts milliseconds *)
@@ -235,7 +241,8 @@ Definition fw_guard (s : slot) : bool :=
 
 Fixpoint nodupz (l : list Z) : bool := match l with [] => true | x :: r => negb (memz x r) && nodupz r end.
 Definition subsetz (a b : list Z) : bool := forallb (fun x => memz x b) a.
-Definition fresh_ips (ips : list Z) (s : iset) : bool := nodupz ips && forallb (fun a => negb (memz a (keys s))) ips.
+Definition fresh_ips (ips : list Z) (s : iset) : bool :=
+  nodupz ips && negb (memz 0 ips) && forallb (fun a => negb (memz a (keys s))) ips.   (* 0 is not an address *)
 
 (* Dispose step (a): every idle, not-valid, non-primary entry becomes Deleting *)
 Definition dispose_invalid (s : iset) : iset :=
@@ -305,14 +312,14 @@ Definition step (s : slot) (l : label) : option slot :=
   | LAllocDirect r pod pin erdma c4 c6 =>
       match alloc_kind s pod false pin erdma, rfind r (s_reqs s) with
       | KDirect, None =>
-          if unfinished_for s pod then None      (* H_seq: one unfinished request per pod (daemon/daemon.go pending set) *)
+          if unfinished_for s pod || (pod =? 0) then None      (* H_seq: one unfinished request per pod (daemon/daemon.go pending set); pre-heat requests (pod 0) are no-cache, never direct *)
           else
           let ok4 := if f_on (s_4 s) then negb (c4 =? 0) && peek_ok (f_set (s_4 s)) pod c4 else c4 =? 0 in
           let ok6 := if f_on (s_6 s) then negb (c6 =? 0) && peek_ok (f_set (s_6 s)) pod c6 else c6 =? 0 in
           if ok4 && ok6 then
             let s1 := if c4 =? 0 then s else map_set s F4 (set_owner c4 pod) in
             let s2 := if c6 =? 0 then s1 else map_set s1 F6 (set_owner c6 pod) in
-            Some (with_reqs s2 (rput r (new_req pod false true c4 c6) (s_reqs s2)))
+            Some (with_reqs s2 (rput r (new_req pod false true c4 c6 (held_by (f_set (s_4 s)) c4 pod) (held_by (f_set (s_6 s)) c6 pod)) (s_reqs s2)))
           else None
       | _, _ => None end
   | LAllocEnqueue r pod nc pin erdma =>
@@ -322,13 +329,13 @@ Definition step (s : slot) (l : label) : option slot :=
           else
           let s1 := if e4 then fset s F4 (with_q (s_4 s) (f_alloc (s_4 s) ++ [r]) (f_dang (s_4 s))) else s in
           let s2 := if e6 then fset s1 F6 (with_q (s_6 s1) (f_alloc (s_6 s1) ++ [r]) (f_dang (s_6 s1))) else s1 in
-          Some (with_reqs s2 (rput r (new_req pod nc false 0 0) (s_reqs s2)))
+          Some (with_reqs s2 (rput r (new_req pod nc false 0 0 false false) (s_reqs s2)))
       | _, _ => None end
   | LCommit r deliver =>
       match rfind r (s_reqs s) with
       | Some q =>
           if r_direct q && negb (r_fin q) && (deliver || r_ctx q)
-          then Some (mark_req (commit s (r_pod q) (r_d4 q) (r_d6 q) deliver) r set_fin)
+          then Some (mark_req (commit s (r_pod q) (r_d4 q) (r_d6 q) deliver (r_k4 q) (r_k6 q)) r set_fin)
           else None
       | None => None end
   | LWorkerTake r c4 c6 deliver =>
@@ -337,7 +344,7 @@ Definition step (s : slot) (l : label) : option slot :=
           let ok4 := if f_on (s_4 s) then negb (c4 =? 0) && peek_ok (f_set (s_4 s)) (r_pod q) c4 else c4 =? 0 in
           let ok6 := if f_on (s_6 s) then negb (c6 =? 0) && peek_ok (f_set (s_6 s)) (r_pod q) c6 else c6 =? 0 in
           if negb (r_direct q) && negb (r_nc q) && negb (r_fin q) && (deliver || r_ctx q) && ok4 && ok6
-          then Some (worker_exit (commit s (r_pod q) c4 c6 deliver) r)
+          then Some (worker_exit (commit s (r_pod q) c4 c6 deliver (held_by (f_set (s_4 s)) c4 (r_pod q)) (held_by (f_set (s_6 s)) c6 (r_pod q))) r)
           else None
       | None => None end
   | LWorkerCancel r =>
